@@ -60,6 +60,8 @@ def check_word(seq, case):
     if not case.get("assignments"):
         return out, calls
     absent = [a for a in T.AA if a not in seq]
+    shared = [SP(seq), SP(seq)]      # two live objects on which ALL calls are repeated (forward / reverse order)
+    shared_calls = []
     for assign in itertools.product((1, 2, 0), repeat=4):
         g1 = [l for l, a in zip(LETTERS, assign) if a == 1]
         g2 = [l for l, a in zip(LETTERS, assign) if a == 2]
@@ -68,6 +70,7 @@ def check_word(seq, case):
             if g1:
                 try:
                     one = SP(seq).get_kappa_X(g1)
+                    shared_calls.append((list(g1), None, one))
                     comp = [a for a in T.AA if a not in g1]
                     two = SP(seq).get_kappa_X(g1, comp)
                     calls += 2
@@ -97,6 +100,7 @@ def check_word(seq, case):
             v("exception", "kappa_X(%r,%r) raised %r on %s" % (g1, g2, e, seq), g1=g1, g2=g2)
             continue
         case.setdefault("_vals", set()).add(round(got, 9))
+        shared_calls.append((list(g1), list(g2), got))
         if not eq(got, exp):
             v("two-group-recoding", "%s: kappa_X(%r,%r)=%r but kappa of the three-letter recoding is %r" % (seq, g1, g2, got, exp),
               g1=g1, g2=g2)
@@ -120,6 +124,19 @@ def check_word(seq, case):
             if not eq(got, alt):
                 v("two-group-normalisation", "%s: kappa_X(%r,%r)=%r but kappa_X(%r,%r)=%r" % (seq, g1, g2, got, a1, a2, alt),
                   g1=a1, g2=a2)
+    # the same calls again on one live object each (forward and reverse order): results must not depend on earlier calls
+    for o, seqcalls in ((shared[0], shared_calls), (shared[1], list(reversed(shared_calls)))):
+        for g1, g2, want in seqcalls:
+            try:
+                got = o.get_kappa_X(g1) if g2 is None else o.get_kappa_X(g1, g2)
+                calls += 1
+            except Exception as e:  # noqa
+                v("exception", "kappa_X(%r,%r) on a reused object raised %r (%s)" % (g1, g2, e, seq), g1=g1, g2=g2)
+                continue
+            if not eq(got, want):
+                v("kappaX-depends-on-earlier-calls", "%s: on an object that already answered other kappa_X calls, kappa_X(%r,%r)=%r "
+                  "but a fresh object gives %r" % (seq, g1, g2, got, want), g1=g1, g2=g2)
+                break
     return out, calls
 
 
@@ -183,6 +200,12 @@ def run(tier, seed, t0):
         cases.append({"kind": "word", "seq": w, "assignments": True})
     for w in spaces.shard_words(T.AA, 2, ""):
         cases.append({"kind": "word", "seq": w, "assignments": False})
+    LXO = 10 if tier == "quick" else 13
+    xs, os_ = "PEDKR", "GASTNQHCILMFWYV"
+    for Lw in range(5, LXO + 1):
+        for w in spaces.shard_words("XO", Lw, ""):
+            cases.append({"kind": "word", "assignments": False,
+                          "seq": "".join(xs[(i + Lw) % 5] if c == "X" else os_[(i + Lw) % 15] for i, c in enumerate(w))})
     for w in ["KEPGDRSTYA", "ACDEFGHIKLMNPQRSTVWY", "WYVTSRQPNMLKIHGFEDCA"]:
         cases.append({"kind": "word", "seq": w, "assignments": False})
         cases.append({"kind": "invalid", "seq": w})
@@ -193,8 +216,8 @@ def run(tier, seed, t0):
         PROP, tier, seed, acc, t0,
         rule="every word over {K,E,P,G} of length 1..3 and 5..%d (thorough: 1..%d; +5 longer ones) x ALL 81 assignments of those four letters to "
              "(group 1 / group 2 / neither), each with swapped groups and three paddings by absent residues with permuted member "
-             "order and mixed case; one-group calls vs the complementary two-group call; every 2-residue word over the 20 amino "
-             "acids and three 10-20-mers for Omega == kappa(recoded) == kappa_X(PEDKR), kappa == kappa_X(ED,KR) and the Omega "
+             "order and mixed case; one-group calls vs the complementary two-group call; all those calls repeated in forward and reverse order on one reused object each (must equal the fresh-object results); every 2-residue word over the 20 amino "
+             "acids, every word over {PEDKR-class, other-class} of length 5..10 (thorough 13) and three 10-20-mers for Omega == kappa(recoded) == kappa_X(PEDKR), kappa == kappa_X(ED,KR) and the Omega "
              "string; 8 invalid members at every position of either group must be rejected. Expected values are real "
              "get_kappa() calls on the independently recoded sequence. dont-care: overlapping groups, empty second group with "
              "the ternary reading. non-trivial = words of length>=5 with >=2 letters (shorter ones have kappa -1 by definition); quick uses one of the three paddings per assignment" % (L, L),
